@@ -4,7 +4,8 @@
 P=${1:-3}
 cd /verif/seeded
 ls -d C* | xargs -P $P -I{} bash -c '
-  n={}; prop=$(python3 -c "import json;m=json.load(open(\"/verif/seeded/$n/meta.json\"));print(m.get(\"check\") or m[\"property\"])")
+  n={}; if python3 -c "import json,sys;sys.exit(0 if json.load(open(\"/verif/seeded/$n/meta.json\")).get(\"obsolete\") else 1)"; then echo "SKIPPED $n (obsolete, see meta.json)"; exit 0; fi
+  prop=$(python3 -c "import json;m=json.load(open(\"/verif/seeded/$n/meta.json\"));print(m.get(\"check\") or m[\"property\"])")
   out=$(LINES_OUT=40 /verif/seedtest2.sh $n $prop quick 2>&1)
   v=$(echo "$out" | grep -ao "violations=[0-9]*" | tail -1)
   if echo "$out" | grep -aq "violations=[1-9]"; then echo "CAUGHT $n $prop $v"; else echo "MISSED $n $prop $v :: $(echo "$out" | tail -2 | tr "\n" " " | cut -c1-200)"; fi'
